@@ -194,3 +194,6 @@ package panos
 //vc:  invariant[C18] 3 "for _, r := range v.Rules" true
 //vc:  ensures[C18] @oneDeviceEntry result == nil && c.Devices != nil ==> len(c.Devices.Entries) <= 1
 //vc:  ensures[C18] @vsysNamesDistinct result == nil && c.Devices != nil && len(c.Devices.Entries) == 1 ==> vsysNamesDistinct(c.Devices.Entries[0])
+
+// text handed to the device, a file or a log is never interpreted as a printf format
+//vc:constformat[C03]
